@@ -518,6 +518,7 @@ func rulePairCacheCount(c *Ctx) {
 	addSubscriber := p.Method("rescache.EventSubscription.addSubscriber")
 	esType := p.Named("rescache.EventSubscription")
 	fMqSub := p.Field("rescache.EventSubscription.mqSub")
+	fEventSubs := p.Field("rescache.Cache.eventSubs")
 
 	countEvents := func(t *Tracer, fr *Frame, in ssa.Instruction) []Ev {
 		switch x := in.(type) {
@@ -631,6 +632,11 @@ func rulePairCacheCount(c *Ctx) {
 			if st, ok := isStoreToT(t, fr, in, fMqSub); ok && !isNilConst(st.Val) {
 				return []Ev{{Kind: "mqSub="}}
 			}
+			if mu, ok := in.(*ssa.MapUpdate); ok && fEventSubs != nil {
+				if f, _ := fieldLoad(mu.Map); f == fEventSubs {
+					return []Ev{{Kind: "register"}}
+				}
+			}
 			// a nested acquirer is decided on its own: it counts one use when it succeeds
 			if call, ok := isCallTo(in, acqFuncs...); ok && fr == t.RootFr {
 				if sf := call.Common().StaticCallee(); sf != nil && sf != acqFn && acquirers[sf] < 0 {
@@ -667,14 +673,16 @@ func rulePairCacheCount(c *Ctx) {
 		tr := NewTracer(p, sp, acqFn)
 		tr.Run()
 		c.inst(1)
-		badOK, badErr, badSub, badMq := "", "", "", ""
+		badOK, badErr, badSub, badMq, badReg := "", "", "", "", ""
 		subscribes := ei >= 0 // an acquirer that can fail is one that subscribes
 		for _, path := range tr.Paths {
 			net, ret, sub := 0, "", false
+			plus := 0
 			for _, e := range path {
 				switch e.Kind {
 				case "count+1":
 					net++
+					plus++
 				case "count-1":
 					net--
 				case "count?":
@@ -694,6 +702,11 @@ func rulePairCacheCount(c *Ctx) {
 			if ret == "return:err" && hasBool && !sub {
 				badSub = "an error can be returned although no mq subscription was requested (sendRequest ignores the error): " + tr.FmtPath(path)
 			}
+			// an entry put into the cache's index is counted on that path: the eviction queue is entered only
+			// by releasing a count, so an entry registered with no use ever counted is never evicted
+			if hasKind(path, "register") && plus == 0 {
+				badReg = "an entry is registered in the cache on a path that never counts a use on it: nothing can release it, it is never queued for eviction and its gauges never return to zero: " + tr.FmtPath(path)
+			}
 			// an entry handed out for subscribing has its event subscription: found (mqSub != nil) or made on this path
 			if ret == "return:ok" && subscribes && !hasKind(path, "subscribe=false") && !hasKind(path, "has-mqsub") && !hasKind(path, "mqSub=") {
 				badMq = "a successful return for a subscribing caller on which the entry's event subscription was neither found nor made: an entry first created by a request (no event subscription) is then served to subscribers that never receive its events: " + tr.FmtPath(path)
@@ -704,6 +717,7 @@ func rulePairCacheCount(c *Ctx) {
 		}
 		pos := p.Pos(acqFn.Pos())
 		c.check(badOK == "", fnName(acqFn), "one use counted on every successful return", pos, fmt.Sprintf("%d paths", len(tr.Paths)), badOK)
+		c.check(badReg == "", fnName(acqFn), "an entry registered in the cache is counted on that path (so that it can be evicted)", pos, "every registering path counts a use", badReg)
 		if ei >= 0 {
 			c.check(badErr == "", fnName(acqFn), "count released on the error return", pos, "error returns are net 0", badErr)
 			c.check(badSub == "", fnName(acqFn), "errors only when subscribe was requested", pos, "every error return passes the true edge of the subscribe parameter (or the function always subscribes)", badSub)
